@@ -154,7 +154,7 @@ Section Level.
     destruct (visit_num g (lg_wf g n LG) (lg_single g n LG) (LG_real g n LG) n (LG_names g n LG)
                 (LG_nonneg g n LG) m res Hm Hres (lg_attr g n LG) s u Hu HS HN) as [s' [Hv [HS' [HN' Hc]]]].
     exists s'. split; [exact Hv|]. split; [exact HS'|]. split; [exact HN'|].
-    destruct Hc as [[M [I1 [C1 _]]]|[M [_ [_ P]]]]; [left; repeat split; assumption | right; split; assumption].
+    destruct Hc as [[M [I1 [C1 _]]]|[M [_ [_ [P _]]]]]; [left; repeat split; assumption | right; split; assumption].
   Qed.
 
   Corollary level_visit_newman : forall s u, m == total_w es ->
